@@ -68,7 +68,17 @@ COMMON_TRUSTED = [
     "property, rejected by the Python binding)",
 ]
 
+def _e2e_obligations():
+    # the end-to-end composition theorems of coq/e2e (text -> encode -> stripe -> configure -> Scanner) count as
+    # obligations of this property in the thorough tier
+    from props import e2e
+    return e2e.obligations()
+
+
 SPEC = dict(
+    extra_obligations={"thorough": _e2e_obligations},
+    extra_obligations_name="coq/e2e/E2E.v: end-to-end composition of C05, C04, C01, C08, C07 with the scanner model",
+    extra_obligations_cmd="make -C coq/e2e (and imported groups) + Print Assumptions audit of LME2E.E2E",
     id="C02",
     group="scan",
     props_file="C02.v",
@@ -82,8 +92,9 @@ SPEC = dict(
     nontrivial=nontrivial,
     histogram=histogram,
     rule="ScoringMatrix<Dna> with M in 1..12 (thorough ..30): cells on a 0.25 grid in [-4,4] with 0.01 jitters "
-         "(optionally scaled x4/x25), few-valued matrices with exact ties, count-derived log-odds matrices, constant "
-         "matrices; wildcard column -inf / 0 / finite. Sequences over ACGT with optional N and planted consensus "
+         "(optionally scaled x4/x25, optionally shifted by +-8..4096 as long as the matrix keeps a margin of 4 on coq/disc's "
+         "conditioning predicate), few-valued matrices with exact ties, count-derived log-odds matrices, constant "
+         "matrices (zeros of mixed signs included: the repaired F14b path); wildcard column -inf / 0 / finite. Sequences over ACGT with optional N and planted consensus "
          "words; L in {0, 1, M-1, M, M+1}, L with ceil(L/32) within +-M of a multiple of B, random L <= 600; "
          "B in {1,2,3,7,16,256,default}; wrap = M-1 (configure), larger, or too small (expected panics compared with the "
          "model only); thresholds -1000, min score, quantiles, an attained score, max, next float above max, max+1, "
